@@ -16,5 +16,7 @@ pub use header::*;
 pub use options::*;
 pub(crate) use read_only::*;
 pub use read_write::*;
+#[cfg(feature = "verif")]
+pub use rollback::verif_parse_base_change;
 pub use shared_len::*;
 pub use with_prev::*;
